@@ -548,7 +548,11 @@ def j_cost(kind, pre, ln):
     elif op in ("retain", "retain_mut", "iter_mut"):
         bound = c * m
         if op == "iter_mut" and ln.args and ln.args[0] == "forget":
-            bound = 0
+            # a leaked guard never rebuilds — unless the program consumed the iterator itself (`last()` / `count()` take it
+            # by value: its Drop runs inside the call and rebuilds)
+            calls = [ln.args[2 + 5 * j] for j in range(int(ln.args[1]))]
+            if not any(cc in ("z", "c") for cc in calls):
+                bound = 0
     elif op == "convert":
         bound = (7 if pq else 2) * m       # the TARGET kind rebuilds
     elif op == "serde_rt":
